@@ -4,9 +4,9 @@ open Util
 let handlers : (string, string list -> string) Hashtbl.t = Hashtbl.create 64
 let reg name f = Hashtbl.replace handlers name f
 let () =
-  reg "number0" (function [a] -> hex_of_bytes (Model.number0 (bytes_of_hex a)) | _ -> "BADARGS");
-  reg "decimal0" (function [a] -> hex_of_bytes (Model.decimal0 (bytes_of_hex a)) | _ -> "BADARGS");
-  reg "valid_number" (function [a] -> if Model.valid_number (bytes_of_hex a) then "1" else "0" | _ -> "BADARGS");
+  reg "number0" (function [a] -> hex_of_bytes (NumModel.number0 (bytes_of_hex a)) | _ -> "BADARGS");
+  reg "decimal0" (function [a] -> hex_of_bytes (NumModel.decimal0 (bytes_of_hex a)) | _ -> "BADARGS");
+  reg "valid_number" (function [a] -> if NumModel.valid_number (bytes_of_hex a) then "1" else "0" | _ -> "BADARGS");
   Engines.register reg
 let () =
   (try while true do
